@@ -88,6 +88,14 @@ def mt_pledge_control(prog, res):
     nopledge = [e for e in nopledge if (e[0], len(f.blocks[e[0]]["el"])) in region]
     failed = cond_edges(f, lambda x: x.get("k") == "call" and x.get("c") in ("ERR_isError", "ZSTD_isError"), "true")
     failed = [e for e in failed if (e[0], len(f.blocks[e[0]]["el"])) in region]
+    # tests of the same conjunction written inline (`endOp == ZSTD_e_end && flushMin == 0 && consumed+1 != pledged`): when the
+    # directive is not `end`, or the flush is not complete, the frame does not end in this call - those edges cannot lead to the
+    # end-of-frame reset of this iteration and are ways around the "too few" comparison
+    res_names = {strip_casts(x["lhs"]).get("n") for b, i, x in f.events(lambda y: y.get("k") == "asg") if any(is_call(z, "ZSTDMT_compressStream_generic") for z in walk(x["rhs"]))}
+    res_names |= {v.get("n") for b, i, x in f.events(lambda y: y.get("k") == "decl") for v in x.get("vars", []) if v.get("init") is not None and any(is_call(z, "ZSTDMT_compressStream_generic") for z in walk(v["init"]))}
+    notend = guards.rel_edges(f, lambda a_: True, "==", lambda b_: strip_casts(b_).get("n") == "ZSTD_e_end", truth=False)
+    notdone = guards.rel_edges(f, lambda a_: strip_casts(a_).get("k") == "ref" and strip_casts(a_).get("n") in res_names, "==", lambda b_: const_val(strip_casts(b_)) == 0, truth=False)
+    notyet = [e for e in notend + notdone if (e[0], len(f.blocks[e[0]]["el"])) in region]
     much = cmp_branches((">", "<", ">=", "<="))
     few = cmp_branches(("!=", "=="))
     # a `!=` inside a `&&` chain whose value is stored: the branch found is the one on the stored value; an `==` form passes on its true edge
@@ -104,7 +112,7 @@ def mt_pledge_control(prog, res):
               "the multithreaded branch can return success without comparing the bytes consumed with the pledged size "
               "(more input than pledged is accepted and the frame header lies)")
     ends = [t for t in f.call_roots("ZSTD_CCtx_reset") if t in region]
-    ok = bool(few) and bool(ends) and f.must_pass(via_roots=errs, via_edges=few_pass + nopledge + failed, starts=starts, targets=ends)
+    ok = bool(few) and bool(ends) and f.must_pass(via_roots=errs, via_edges=few_pass + nopledge + failed + notyet, starts=starts, targets=ends)
     res.check(ok, R, "compressStream2:mt-exactly-pledged-at-end", f.loc,
               "the end-of-frame session reset is reached only through the passing edge of `consumedSrcSize+1 != pledgedSrcSizePlusOne` (%d comparison(s))" % len(few),
               "the multithreaded branch can complete a frame without comparing the bytes consumed with the pledged size "
